@@ -159,7 +159,7 @@ def check_record_agg(cfg, w, rep, lf, rt):
             rep.violation("write:%s.%s" % (key, nm), "`%s` stores record.%s = %s (expected %s)" % (short(lf.path), nm, term_str(f[nm])[:120], how),
                           loc=span_str(s.span), config=cfg, rule="write-side")
     # an insert cannot report success without having appended the record it was given
-    appends = [e for e in w.own_effects(lf) if e.kind == "WriteData" and e.flags.get("op") in ("write_all", "write")]
+    appends = bucket_data_writes(w, lf)[0]
     body_ = lf.body
     cut = {e.blk for e in appends if e.body is body_}
     succ = [rd for rd in ret_defs(prog, body_) if rd.cls in ("success", "unknown", "delegated")]
